@@ -427,6 +427,26 @@ func (g *gen) vspecFor(p position) vspec {
 	if g.r.Intn(3) == 0 {
 		return g.vspec()
 	}
+	if g.r.Intn(4) == 0 {
+		// several comparers that ALL claim this position (same kind, different tolerances): a conjunction /
+		// disjunction must consult every one of them, in any order
+		var kinds []string
+		switch {
+		case isFloatKind(fd.Kind()):
+			kinds = []string{"fa"}
+		case fd.Kind() == pref.MessageKind && fd.Message().FullName() == "google.protobuf.Timestamp":
+			kinds = []string{"tw"}
+		case fd.Kind() == pref.MessageKind && fd.Message().FullName() == "google.protobuf.Duration":
+			kinds = []string{"dw", "dw", "dp"}
+		}
+		if kinds != nil {
+			v := vspec{Comb: []string{"VA", "VO"}[g.r.Intn(2)]}
+			for n := 2 + g.r.Intn(2); n > 0; n-- {
+				v.Atoms = append(v.Atoms, g.atom(kinds[g.r.Intn(len(kinds))]))
+			}
+			return v
+		}
+	}
 	switch {
 	case isFloatKind(fd.Kind()):
 		return vspec{Atoms: []atom{g.atom("fa")}}
@@ -440,7 +460,7 @@ func (g *gen) vspecFor(p position) vspec {
 
 func runValues(f lib.Flags, res *lib.Result, drv *lib.Driver, ms *monitors) {
 	tie := res.Tie("value-comparers", "K1",
-		"random (value comparer, field, x, y): field of every kind (ints, floats, bool, string, bytes, enum, message, Timestamp, Duration, list element, map value); floats from small multiples of 1/8 plus NaN/±Inf/-0, y = x nudged by a recorded step; Timestamp/Duration pairs nudged by 1ns..1s steps, typed-nil messages, durations saturating AsDuration; tolerances just below/at/above the introduced difference; comparer = atom | ValueAnd | ValueOr. Each case on (x,y),(y,x),(x,x). Non-trivial: distinct cases")
+		"random (value comparer, field, x, y): field of every kind (ints, floats, bool, string, bytes, enum, message, Timestamp, Duration, list element, map value); floats from small multiples of 1/8 plus NaN/±Inf/-0, y = x nudged by a recorded step; Timestamp/Duration pairs nudged by 1ns..1s steps, typed-nil messages, durations saturating AsDuration; tolerances just below/at/above the introduced difference; comparer = atom | ValueAnd | ValueOr (of random kinds, or 2-3 comparers of the position's own kind with different tolerances). Each case on (x,y),(y,x),(x,x). Non-trivial: distinct cases")
 	g := &gen{r: lib.NewRand(f.Seed + 7919)}
 	n := f.N(8000, 150000)
 	const batch = 1000
@@ -453,6 +473,12 @@ func runValues(f lib.Flags, res *lib.Result, drv *lib.Driver, ms *monitors) {
 			p := positions[g.r.Intn(len(positions))]
 			spec := g.vspecFor(p)
 			x, y := g.vpair(p, spec.hasKind("dp"))
+			// now that the pair exists, move most tolerances next to the differences it recorded
+			for k, a := range spec.Atoms {
+				if a.Kind != "dp" && g.r.Intn(4) != 0 {
+					spec.Atoms[k] = g.atom(a.Kind)
+				}
+			}
 			c := vcase{Spec: spec, Pos: p, X: x, Y: y}
 			cases = append(cases, c)
 			lines = append(lines, c.lines()...)
